@@ -80,7 +80,7 @@ def run(ctx) -> None:
     if not init_nodes or not starter_nodes:
         rep.violate("C05.R1", SC, SC.node, "start_component does not build the tree and then start it")
         return
-    rep.check("C05.R1", sccfg.dominates(init_nodes[0].id, starter_nodes[0].id), SC, init_nodes[0].ast, "the whole tree is instantiated before the starter coroutine is awaited", "the starter can run before the tree has been instantiated")
+    rep.check("C05.R1", all(sccfg.dominates(init_nodes[0].id, sn_.id) for sn_ in starter_nodes), SC, init_nodes[0].ast, "the whole tree is instantiated before the starter coroutine is awaited", "the starter can run before the tree has been instantiated")
     rep.check("C05.R1", not init.is_async, init, init.node, "instantiation is synchronous (no interleaving with prepare/start of other components)", "the init function is a coroutine: instantiation interleaves with startup")
     phase_in_init = [c for c in walk_own(init.node) if isinstance(c, ast.Call) and isinstance(c.func, ast.Attribute) and c.func.attr in ("prepare", "start")]
     rep.check("C05.R1", not phase_in_init, init, phase_in_init[0] if phase_in_init else init.node, "instantiation calls no prepare()/start()", "prepare()/start() is called while the tree is still being instantiated")
@@ -132,13 +132,11 @@ def run(ctx) -> None:
                 rep.violate("C05.R3", starter, scall, "the spawn is not inside a loop over the child contexts")
             else:
                 it, tgt, lp = loops[-1]
-                # which attribute of the component context holds the children?
-                child_attr = None
-                for st in walk_own(an.ComponentContext.methods["__init__"].node):
-                    if isinstance(st, ast.Assign) and isinstance(st.value, ast.Name) and "child" in st.value.id:
-                        child_attr = self_attr(st.targets[0])
-                whole = isinstance(it, ast.Call) and call_name(it) in ("items", "values") and isinstance(it.func.value, ast.Attribute) and it.func.value.attr == child_attr and dotted(it.func.value.value) == starter.params[0]
-                rep.check("C05.R3", bool(whole), starter, lp, "the loop iterates all child contexts of this component", f"the loop iterates `{ast.unparse(it)}`, not all of this component's child contexts")
+                child_attr = an.children_attr
+                it_n = [n for n in cfg.live_nodes() if n.kind == "for_iter" and n.ast is it]
+                it_r = sf.rd.resolve(it_n[0].id, it) if it_n else it
+                whole = isinstance(it_r, ast.Call) and call_name(it_r) in ("items", "values") and isinstance(it_r.func.value, ast.Attribute) and it_r.func.value.attr == child_attr and dotted(it_r.func.value.value) == starter.params[0]
+                rep.check("C05.R3", bool(whole), starter, lp, "the loop iterates all child contexts of this component", f"the loop iterates `{ast.unparse(it_r)}`, not all of this component's child contexts")
                 head = [n for n in cfg.live_nodes() if n.kind == "for_next" and n.ast is lp][0]
                 body = cfg.reach([d for d, lab in head.succ if lab == "t"], avoid=[head.id], edge_ok=normal)
                 cps = [r for i in body for r in a.node_checkpoints(starter, cfg, cfg.nodes[i])]
@@ -158,13 +156,18 @@ def run(ctx) -> None:
     # the children block is guarded only by "has children"
     if sf.tg_enter:
         for t, lab in controlling_tests(cfg, sf.tg_enter[0]):
-            ok = lab == "t" and isinstance(t.ast, ast.Attribute) and "child" in t.ast.attr
+            e, want = t.ast, "t"
+            while isinstance(e, ast.UnaryOp) and isinstance(e.op, ast.Not):
+                e, want = e.operand, ("f" if want == "t" else "t")
+            e = sf.rd.resolve(t.id, e)
+            ok = lab == want and isinstance(e, ast.Attribute) and e.attr == an.children_attr and dotted(e.value) == starter.params[0]
             rep.check("C05.R3", ok, starter, t.ast, "the child block is skipped only when there are no children", f"the child block is additionally guarded by `{ast.unparse(t.ast)}`")
 
     # ------------------------------------------------------------------ R4 return after root start
     aw = [n for n in starter_nodes if any(isinstance(e, ast.Await) for e in iter_own(sccfg.own_ast(n)))]
     rets = [n for n in sccfg.live_nodes() if n.kind == "stmt" and isinstance(n.ast, ast.Return) and n.ast.value is not None]
-    rep.check("C05.R4", bool(aw) and bool(rets) and all(sccfg.dominates(aw[0].id, r.id) for r in rets), SC, rets[0].ast if rets else SC.node, "start_component returns the root only after the starter (hence the root's start()) has completed", "start_component can return before the root's start() has returned")
+    ok_ret = bool(aw) and bool(rets) and all(sccfg.all_paths_pass(sccfg.entry, [r.id], [x.id for x in aw], edge_ok=normal) for r in rets)
+    rep.check("C05.R4", ok_ret, SC, rets[0].ast if rets else SC.node, "start_component returns the root only after the starter (hence the root's start()) has completed", "start_component can return before the root's start() has returned")
     spawned_starter = [c for c, cal in a.func_calls(SC) if call_name(c) in ("start_soon", "create_task") and any(isinstance(x, ast.Name) and a.r.resolve_name(SC, x.id) is starter for x in c.args)]
     rep.check("C05.R4", not spawned_starter, SC, spawned_starter[0] if spawned_starter else SC.node, "the root starter is awaited, not spawned", "the root starter is spawned in the background")
     for r in rets:
